@@ -225,12 +225,20 @@ class Judge:
             l.append((len(case), what, case, impl, expect))
         self.ctx.count("oracle_fail:" + key)
 
-    def check(self, cases, impl, model):
+    def corpus_lines(self, stream):
+        import os
+        p = os.path.join(vlib.ROOT, "corpus", self.ctx.pid, stream + ".case")
+        if not os.path.exists(p):
+            return []
+        return [l.rstrip("\n") for l in open(p) if l.strip() and not l.startswith("#")]
+
+    def check(self, cases, impl, model, stream=None):
         base = len(impl) - len(cases)
         pending = []
+        pre = self.corpus_lines(stream) if stream and base else []
         for k in range(len(impl)):
             o = impl[k]
-            c = cases[k - base] if k >= base else "(corpus case %d)" % k
+            c = cases[k - base] if k >= base else (pre[k] if k < len(pre) else "bt.all\t-")
             s = split_all(o)
             if s is None:
                 self.add("crash", "binary tape parser: %s" % o[:80], c, o, "opt=.. | ref=.. | wf=..")
@@ -269,7 +277,7 @@ def stream(ctx, judge, name, cases, batch=400000):
     buf = []
     def go():
         impl, model = ctx.correspond(name, buf, nontrivial=nontrivial)
-        judge.check(buf, impl, model)
+        judge.check(buf, impl, model, name)
     for c in cases:
         buf.append(c)
         if len(buf) >= batch:
@@ -318,7 +326,7 @@ def gen_streams(ctx, judge, sizes):
     docs = [gen_doc(rng) for _ in range(ndocs)]
     cases = ["bt.all\t" + hexs(b) for b, _ in docs]
     impl, model = ctx.correspond("docs", cases, nontrivial=nontrivial)
-    judge.check(cases, impl, model)
+    judge.check(cases, impl, model, "docs")
     base = len(impl) - len(cases)
     if not judge.wf_only:
         for k, (b, exp) in enumerate(docs):
@@ -341,11 +349,11 @@ def gen_streams(ctx, judge, sizes):
             ins = enc(rng.choice(KINDS + ["idb"]), rng.randrange(5))
             cases.append("bt.all\t" + hexs(b[:p] + ins + b[p:]))
     impl, model = ctx.correspond("doc_mutations", cases, nontrivial=nontrivial)
-    judge.check(cases, impl, model)
+    judge.check(cases, impl, model, "doc_mutations")
     # 5. random token walks
     cases = ["bt.all\t" + hexs(enc_seq(random_tokens(rng, rng.choice([3, 6, 9, 14, 25, 40])))) for _ in range(nrand)]
     impl, model = ctx.correspond("random_tokens", cases, nontrivial=nontrivial)
-    judge.check(cases, impl, model)
+    judge.check(cases, impl, model, "random_tokens")
     # 6. random byte strings over an id-heavy alphabet
     cases = []
     for _ in range(nbytes):
@@ -355,12 +363,12 @@ def gen_streams(ctx, judge, sizes):
         else:
             cases.append("bt.all\t" + hexs(bytes(rng.randrange(256) for _ in range(n))))
     impl, model = ctx.correspond("random_bytes", cases, nontrivial=nontrivial)
-    judge.check(cases, impl, model)
+    judge.check(cases, impl, model, "random_bytes")
     # 7. parse into a previously used tape
     pool = [b for b, _ in docs[:300]] + [enc_seq(random_tokens(rng, 8)) for _ in range(200)]
     cases = ["bt.reuse\t%s\t%s" % (hexs(rng.choice(pool)), hexs(rng.choice(pool))) for _ in range(max(500, ndocs // 2))]
     impl, model = ctx.correspond("reuse", cases, nontrivial=nontrivial)
-    judge.check(cases, impl, model)
+    judge.check(cases, impl, model, "reuse")
 
 
 def run(ctx):
@@ -368,7 +376,7 @@ def run(ctx):
     # the design's witness of finding B and the Coq witness of C03_fast_eq_ref_refuted, replayed every run
     wit = ["bt.all\t" + hexs(enc("i64", 0) + EQUAL + enc("i32", 0))]
     impl, model = ctx.correspond("witness_B", wit, nontrivial=nontrivial)
-    judge.check(wit, impl, model)
+    judge.check(wit, impl, model, "witness_B")
     gen_streams(ctx, judge, ctx.scale((5, 3, 3000, 20000, 20000), (6, 4, 30000, 200000, 200000)))
     judge.flush()
 
